@@ -104,6 +104,12 @@ func init() {
 
 // addKMount appends n(tier) driver-B cases to a registered check.
 func addKMount(id string, n func(tier string) int, run func(c *core.Case, k int)) {
+	addKMountCounter(id, n, run, "kmount_cases")
+}
+
+// addKMountCounter is addKMount with the name of the counter every case of the
+// family increments once when the mount driver is available (its floor).
+func addKMountCounter(id string, n func(tier string) int, run func(c *core.Case, k int), counter string) {
 	chk := Registry[id]
 	if chk == nil {
 		return
@@ -118,6 +124,24 @@ func addKMount(id string, n func(tier string) int, run func(c *core.Case, k int)
 		baseRun(c)
 	}
 	chk.Rule += " (+ driver B: the same oracles on real SQLite running SQL through a kernel mount of the file system, counters kmount_*)"
+	addMountFloors(chk, func(tier string) map[string]int { return map[string]int{counter: n(tier)} })
+}
+
+// addMountFloors merges floors that only apply when the kernel-mount drivers ran.
+func addMountFloors(chk *core.Check, f func(tier string) map[string]int) {
+	prev := chk.MountFloors
+	chk.MountFloors = func(tier string) map[string]int {
+		out := map[string]int{}
+		if prev != nil {
+			for k, v := range prev(tier) {
+				out[k] += v
+			}
+		}
+		for k, v := range f(tier) {
+			out[k] += v
+		}
+		return out
+	}
 }
 
 var kmountProbe struct {
@@ -128,6 +152,10 @@ var kmountProbe struct {
 
 func kmountAvailable() (bool, string) {
 	kmountProbe.once.Do(func() {
+		if os.Getenv("VERIF_NO_KMOUNT") != "" {
+			kmountProbe.why = "disabled by VERIF_NO_KMOUNT"
+			return
+		}
 		dir, err := os.MkdirTemp(core.ScratchBase(), "verif-kprobe-")
 		if err != nil {
 			kmountProbe.why = err.Error()
